@@ -114,6 +114,27 @@ func TestVerifC05(t *testing.T) {
 					}
 				}
 			}
+			// the same with an ordinary transfer to the call's destination in between: the third party
+			// must end exactly as in the block that carries only that transfer
+			if i%15 == 11 {
+				for _, sq := range w.GasSweepTriples(s.R, twin, 6) {
+					full, e1 := w.TwinSeq(twin, sq.Full)
+					base, e2 := w.TwinSeq(twin, sq.Base)
+					if e1 != nil || e2 != nil || full == nil || base == nil || !full.Included || !base.Included {
+						continue
+					}
+					rep.Eval(1)
+					rep.Count("twin_triples(fail,transfer,success)", 1)
+					if len(full.Receipts) == 2 && !full.Receipts[0].Success && full.Receipts[1].Success {
+						rep.Count("twin_triples_failed_midway_then_succeeded", 1)
+					}
+					vb, vf := base.Post1.State.GetBalance(sq.Victim), full.Post1.State.GetBalance(sq.Victim)
+					if vf.Cmp(vb) < 0 {
+						rep.Violation("foreign-funds-lowered:contract-failure,transfer,success", fmt.Sprintf("signer %x: [contract call to %x failing mid-execution, transfer to %x, successful contract tx] leaves %x with %v, the transfer alone with %v",
+							sq.Signer[:4], sq.Victim[:4], sq.Victim[:4], sq.Victim[:4], vf, vb), map[string]interface{}{"block": DescribeBlock(full.B1)})
+					}
+				}
+			}
 			// kills along every relationship the ledger holds, by the entitled party and by strangers
 			for _, g := range w.RelationTxs(s.R) {
 				twinSpend(w, twin, rep, g)
